@@ -6,7 +6,7 @@ Open Scope nat_scope.
 Inductive tid := W | R.
 
 (* the i-th step of the rotation / of the query *)
-Definition wstep (i : nat) : ev := match i with 0 => Noop | 1 => AddRot 0 | _ => DelUnrot 0 end.
+Definition wstep (i : nat) : ev := match i with 0 => Noop | 1 => AddRot 0 | 2 => DelUnrot 0 | _ => Noop end.
 Definition rstep (i : nat) : ev := match i with 0 => SnapU 0 | 1 => SnapR 0 | _ => Resolve 0 end.
 
 Fixpoint sched_events (s : list tid) (wi ri : nat) : list ev :=
